@@ -721,30 +721,36 @@ class Cache:
 
     @cl.contextmanager
     def _transact(self, retry=False, filename=None):
-        sql = self._sql
         _disk_remove = self._disk.remove
         tid = threading.get_ident()
-        txn_id = self._txn_id
 
-        if tid == txn_id:
-            begin = False
-        else:
-            while True:
-                try:
-                    sql('BEGIN IMMEDIATE')
-                    begin = True
-                    self._txn_id = tid
-                    break
-                except sqlite3.OperationalError:
-                    if retry:
-                        continue
-                    if filename is not None:
-                        _disk_remove(filename)
-                    raise Timeout from None
+        try:
+            sql = self._sql
+            txn_id = self._txn_id
 
+            if tid == txn_id:
+                begin = False
+            else:
+                while True:
+                    try:
+                        sql('BEGIN IMMEDIATE')
+                        begin = True
+                        self._txn_id = tid
+                        break
+                    except sqlite3.OperationalError:
+                        if retry:
+                            continue
+                        raise Timeout from None
+        except BaseException:
+            # The transaction did not start: drop the file written for it.
+            if filename is not None:
+                _disk_remove(filename)
+            raise
+
+        if begin:
             # Files written for, and files replaced by, this transaction.
             # Only the outermost transaction removes them: replaced files
-            # after COMMIT, written files after ROLLBACK.
+            # after COMMIT, written files when it is not committed.
 
             self._txn_created = []
             self._txn_removed = []
@@ -755,20 +761,23 @@ class Cache:
 
         try:
             yield sql, removed.append
-        except BaseException:
             if begin:
                 assert self._txn_id == tid
                 self._txn_id = None
-                sql('ROLLBACK')
+                sql('COMMIT')
+        except BaseException:
+            if begin:
+                if self._txn_id == tid:
+                    self._txn_id = None
+                # A failed COMMIT may already have ended the transaction.
+                with cl.suppress(sqlite3.Error):
+                    sql('ROLLBACK')
                 for name in created:
                     if name is not None:
                         _disk_remove(name)
             raise
         else:
             if begin:
-                assert self._txn_id == tid
-                self._txn_id = None
-                sql('COMMIT')
                 for name in removed:
                     if name is not None:
                         _disk_remove(name)
